@@ -139,7 +139,7 @@ class Solver:
         vol = 2 * np.sqrt(np.sum(cr * cr, axis=1))
         # zero vol will cause division by zero below, so set to small value:
         vol_mean = 0.0001 * np.mean(vol)
-        vol[vol < sys.float_info.epsilon] = vol_mean
+        vol[vol == 0] = vol_mean
         # compute cotangents for A
         # using that v2mv1 = - (v3mv2 + v1mv3) this can also be seen by
         # summing the local matrix entries in the old algorithm
@@ -242,7 +242,7 @@ class Solver:
         vol = 2 * np.sqrt(np.sum(cr * cr, axis=1))
         # zero vol will cause division by zero below, so set to small value:
         vol_mean = 0.0001 * np.mean(vol)
-        vol[vol < sys.float_info.epsilon] = vol_mean
+        vol[vol == 0] = vol_mean
         # compute cotangents for A
         # using that v2mv1 = - (v3mv2 + v1mv3) this can also be seen by
         # summing the local matrix entries in the old algorithm
